@@ -385,3 +385,7 @@ def _r35(ctx, ev, rep):
         except Unsupported as e:
             r = "unsupported"
         rep.check(r == want, "R8.4", "R8.4|filter|%s" % var, "a packet matches filter %s ⇔ %s" % (var, want), fp, "filter %s predicate is %s" % (var, r))
+
+    # ---------- R8.6 the output file's buffered writer is flushed with the result used (lossless output)
+    from .c17 import bufwriter_rules
+    bufwriter_rules(ctx, rep, "R8.6")
